@@ -249,6 +249,7 @@ func c08(ctx *run.Ctx) {
 	}
 	// Buy-and-hold through ComputeWithOutcome: outcome_i = v_i/v_0 - 1.
 	ctx.Case("buy-and-hold", func(cc *run.Case) {
+		bah := strategy.NewBuyAndHoldStrategy() // one instance for all runs, as a backtest over several assets uses it
 		for rep := 0; rep < ctx.Pick(50, 500); rep++ {
 			n := cc.R.Range(0, 200)
 			closes := make([]float64, n)
@@ -259,9 +260,10 @@ func c08(ctx *run.Ctx) {
 			}
 			snaps := make([]*asset.Snapshot, n)
 			for i := range snaps {
-				snaps[i] = &asset.Snapshot{Date: reg.Day(i), Close: closes[i], Open: closes[i], High: closes[i], Low: closes[i], Volume: 1}
+				// open/high/low vary independently of the close: the outcome is defined on closings
+				snaps[i] = &asset.Snapshot{Date: reg.Day(i), Close: closes[i], Open: closes[i] * cc.R.FRange(0.9, 1.1), High: closes[i] * cc.R.FRange(1.1, 1.3), Low: closes[i] * cc.R.FRange(0.7, 0.9), Volume: float64(cc.R.Range(1, 1000))}
 			}
-			actions, outcomes := strategy.ComputeWithOutcome(strategy.NewBuyAndHoldStrategy(), helper.SliceToChan(snaps))
+			actions, outcomes := strategy.ComputeWithOutcome(bah, helper.SliceToChan(snaps))
 			res := make(chan []strategy.Action, 1)
 			go func() { res <- helper.ChanToSlice(actions) }()
 			outs := helper.ChanToSlice(outcomes)
